@@ -9,6 +9,7 @@ CONSTANTS
   UseUntil = FALSE
   PreStarted = TRUE
   FixedStopOrder = 0
+  ResetInRun = FALSE
 SPECIFICATION Spec
 INVARIANT NoFinalRevoked
 CHECK_DEADLOCK FALSE
